@@ -542,6 +542,46 @@ def overlay_history(seed: int, hist: tuple) -> list:
         w.close()
 
 
+SNAPSHOT_FORMS = [UDPv4Address("1.2.3.4", 5), UDPv4Address("255.255.255.255", 65535), UDPv6Address("2001:db8::1", 6),
+                  UDPv6Address("::ffff:10.0.0.3", 7), UDPv6Address("::1", 1), UDPv6Address("fe80::1%eth0", 8090),
+                  UDPv6Address("fe80::abcd%2", 9), UDPv6Address("fe80::1%wlp0s20f3", 8090)]
+
+
+def snapshot_forms(seed: int) -> tuple[list, int]:
+    """
+    "A snapshot of the verified peers' addresses, loaded into a fresh graph, makes exactly those addresses walkable" for
+    every legal spelling class of an address a peer can have: IPv4, IPv6, IPv4-mapped IPv6, loopback, and IPv6
+    link-local addresses with a zone id (what a LAN peer is reached on).  One and two verified peers per graph.
+    """
+    import itertools  # noqa: PLC0415
+    viol, n = [], 0
+    keys = [fixtures.public_bin(i) for i in fixtures.rotate(seed, 2)]
+    for combo in [*[(a,) for a in SNAPSHOT_FORMS], *itertools.combinations(SNAPSHOT_FORMS, 2)]:
+        net = Network()
+        for key, addr in zip(keys, combo):
+            net.add_verified_peer(Peer(key, addr))
+        fresh = Network()
+        n += 1
+        try:
+            fresh.load_snapshot(net.snapshot())
+            got = {tuple(a) for a in fresh.get_walkable_addresses()}
+        except Exception as e:  # noqa: BLE001
+            viol.append((f"snapshot-forms:exception:{type(e).__name__}", f"snapshot / load_snapshot of verified peers at "
+                                                                         f"{list(combo)} raised {e!r}"))
+            continue
+        want = {tuple(a) for a in combo}
+        if got != want:
+            viol.append(("snapshot-forms:walkable-differs",
+                         f"verified peers at {[tuple(a) for a in combo]}: the snapshot loaded into a fresh graph makes "
+                         f"{sorted(got)} walkable"))
+    seen, out = set(), []
+    for k, what in viol:
+        if k not in seen:
+            seen.add(k)
+            out.append((k, what))
+    return out, n
+
+
 def _overlay_work(chunk: list) -> list:
     return [(h, overlay_history(_OV_SEED, tuple(h))) for h in chunk]
 
@@ -602,6 +642,11 @@ def run(ctx: core.Ctx) -> core.Report:
                 violations.append(core.Violation(key, what, {"overlay_history": list(h), "seed": ctx.seed}))
     runs.append({"world": "two overlays of one identity sharing a Network", "alphabet_size": len(OVERLAY_EVENTS),
                  "histories": len(hists)})
+    found, n_forms = snapshot_forms(ctx.seed)
+    total_trans += n_forms
+    for key, what in found:
+        violations.append(core.Violation(key, what, {"snapshot_forms": True, "seed": ctx.seed}))
+    runs.append({"world": "snapshot round trip per address spelling class", "graphs": n_forms})
     cov = {
         "states": total_states, "transitions": total_trans, "traces_validated_against_impl": total_trans,
         "samples": samples, "exhaustive": exhaustive, "distinct_outcomes": outcomes, "runs": runs,
@@ -617,6 +662,8 @@ def run(ctx: core.Ctx) -> core.Report:
 
 
 def replay(ctx: core.Ctx, data: dict) -> list:
+    if data.get("snapshot_forms"):
+        return [core.Violation(k, what) for k, what in snapshot_forms(data["seed"])[0]]
     if "overlay_history" in data:
         return [core.Violation(k, what) for k, what in overlay_history(data["seed"], tuple(data["overlay_history"]))]
     w = data["world"]
